@@ -97,7 +97,7 @@ VEval(ast) ==
        [k |-> "VC", fn |-> fn, args |-> IF args.k = "VL" THEN args.items ELSE <<args>>]
     ELSE IF key = <<"X", "=", "X">> THEN
        LET kk == VEval(p[1]) IN IF IsErr(kk) THEN kk ELSE
-       IF kk.k # "VS" THEN Err("AssertionError", "vmake_keyword.key") ELSE
+       IF kk.k # "VS" THEN Err("SyntaxError", "vmake_keyword.key") ELSE
        LET vv == VEval(p[3]) IN IF IsErr(vv) THEN vv ELSE [k |-> "VK", key |-> kk, val |-> vv]
     ELSE Err("SyntaxError", "value_evaluate.unrecognized")
 
@@ -105,7 +105,7 @@ VEval(ast) ==
 GuaranteeCall(p) ==
   IF p.k = "E" THEN Call([p EXCEPT !.cap = None, !.name = IF p.name.k = "str" THEN VS(p.name.v) ELSE p.name, !.t1 = FALSE],
                          <<>>, <<>>, FALSE)
-  ELSE IF p.k = "C" THEN p ELSE Err("AssertionError", "guarantee_call")
+  ELSE IF p.k = "C" THEN p ELSE Err("SyntaxError", "guarantee_call")
 Symbol(tok, ctx) == IF tok.v = "*" THEN El(None, None, FALSE, FALSE, None, Absent)
                     ELSE El(Str(tok.v), Str(tok.v), ctx = "root", FALSE, None, Absent)
 RECURSIVE Eval(_, _)
@@ -120,11 +120,11 @@ Eval(ast, ctx) ==
        LET pc == GuaranteeCall(par) IN IF IsErr(pc) THEN pc ELSE
        IF ch.k = "E" THEN [pc EXCEPT !.caps = Append(@, [ch EXCEPT !.t1 = TRUE])]
        ELSE IF ch.k = "C" THEN [pc EXCEPT !.kids = Append(@, [ch EXCEPT !.imm = FALSE])]
-       ELSE Err("AttributeError", "make_nested_imm.child")
+       ELSE Err("SyntaxError", "make_nested_imm.child")
     ELSE IF key \in {<<"_", ":", "X">>, <<"X", ":", "X">>} THEN
        LET el == IF p[1] = None THEN El(None, None, FALSE, FALSE, None, Absent) ELSE Eval(p[1], ctx) IN IF IsErr(el) THEN el ELSE
        LET tag == VEval(p[3]) IN IF IsErr(tag) THEN tag ELSE
-       IF el.k = "E" THEN [el EXCEPT !.cat = tag] ELSE IF el.k = "C" THEN Err("TypeError", "make_class.call") ELSE Err("AttributeError", "make_class.list")
+       IF el.k = "E" THEN [el EXCEPT !.cat = tag] ELSE Err("SyntaxError", "make_class.not-element")
     ELSE IF key = <<"_", "!", "X">> THEN
        LET el == Eval(p[3], ctx) IN IF IsErr(el) THEN el ELSE
        IF el.k # "E" THEN Err("AssertionError", "make_focus") ELSE [el EXCEPT !.t1 = TRUE]
@@ -153,18 +153,20 @@ Eval(ast, ctx) ==
             LET dflt == ~nm.t1 /\ ~nm.t2
                 nc == El(Str("#value"), nm.name, IF dflt THEN ctx = "root" ELSE nm.t1, nm.t2, None, Absent)
             IN [el EXCEPT !.caps = Append(@, nc)]
-       ELSE Err("AttributeError", "make_as.list")
+       ELSE Err("SyntaxError", "make_as.list")
     ELSE IF key \in {<<"X", "=", "X">>, <<"X", "~", "X">>} THEN
        LET el == Eval(p[1], ctx) IN IF IsErr(el) THEN el ELSE
        LET v0 == VEval(p[3]) IN IF IsErr(v0) THEN v0 ELSE
        LET v == IF key[2] = "~" THEN [k |-> "VC", fn |-> [k |-> "MF"], args |-> <<v0>>] ELSE v0 IN
        IF el.k = "E" THEN [el EXCEPT !.val = v]
        ELSE IF el.k = "C" THEN [el EXCEPT !.caps = Append(@, El(Str("#value"), Str("#value"), FALSE, FALSE, None, v))]
-       ELSE Err("AttributeError", "make_equals.list")
+       ELSE Err("SyntaxError", "make_equals.list")
     ELSE Err("SyntaxError", "evaluate.unrecognized")
 
-\* parse(x) = evaluate(parser(x))
-Parse(toks) == LET tree == Process(toks) IN IF tree # None /\ IsErr(tree) THEN tree ELSE Eval(tree, "root")
+\* parse(x) = evaluate(parser(x)); an empty parse is a syntax error (fix 0ced217: the sites that failed with
+\* AssertionError / AttributeError / TypeError on sequences, calls and non-name keywords now raise SyntaxError)
+Parse(toks) == LET tree == Process(toks) IN IF tree = None THEN Err("SyntaxError", "parse.empty")
+               ELSE IF IsErr(tree) THEN tree ELSE Eval(tree, "root")
 \* _select: a bare element becomes a call of the wildcard function
 SelectOf(r) == IF IsErr(r) THEN r
                ELSE IF r.k = "E" THEN Call(El(None, None, FALSE, FALSE, None, Absent), <<[r EXCEPT !.t1 = TRUE]>>, <<>>, FALSE)
